@@ -22,7 +22,7 @@ CHECKS = {
             "5 C03"),
     "C04": ("round-trip property testing (render -> library parser and independent reference evaluator) over a complete length x scale grid plus proptest generation",
             "Exploration: EVERY digit length 1..40 x EVERY scale -40..60 x 4 digit patterns x both signs, zero at every scale -2000..2000, generated values up to 3000 digits and scales to +-10^15; eight renderings each parsed back by the library and by a reference recogniser; digits/scale identity demanded exactly where the property demands it, scale 0 where an integer is written out with its zeros, no superfluous leading zero; Display notation switch and length bound checked against the build-time thresholds.",
-            "Reference numeral evaluator in ws/oracle (no shared code). Plain notation only for |scale| <= 2*10^4.",
+            "Reference numeral evaluator in ws/oracle (no shared code). Plain notation only for |scale| <= 140000.",
             "5 C04"),
     "C05": ("exhaustive enumeration of all short strings over an 11-letter alphabet + grammar-based and mutation-based proptest generation (+ libFuzzer in the thorough tier), differential against a reference recogniser/evaluator",
             "Exploration with an exhaustive sub-scope: every string of length <= 8 (quick) / <= 9 (thorough) over {0,1,7,+,-,.,e,E,_,x,space}; numerals from the grammar with up to 4000 digits and exponents around +-2^63 and of 40 digits; byte-level mutations including non-ASCII digits, NUL and invalid UTF-8. Acceptance, value and scale must match the reference exactly; four entry points must agree; other radices rejected; no panic on either build flavour.",
